@@ -335,7 +335,14 @@ func (d *delivery) Abort(ctx context.Context) error {
 }
 
 func (d *delivery) Commit(ctx context.Context) error {
-	return d.conn.Close()
+	// The message was accepted by the server when Body returned. If the
+	// connection can't be closed properly (the server is gone before QUIT)
+	// it is still delivered: reporting the failure would make the caller
+	// send a bounce or the message once more.
+	if err := d.conn.Close(); err != nil {
+		d.log.Error("failed to close the connection", err)
+	}
+	return nil
 }
 
 func init() {
